@@ -43,6 +43,11 @@ def mk_stabilizer(n, gens, fmt="matrix"):
     if fmt == "matrix":
         R, S, ph = adapt.matrices_from_gens(n, gens)
         return Stabilizer((R, S, ph))
+    if fmt == "matrix-f":            # same data in Fortran memory order / as a slice of a larger array (the constructor keeps the caller's int8 arrays)
+        R, S, ph = adapt.matrices_from_gens(n, gens)
+        big = np.zeros((n + 1, n + 2), dtype=np.int8)
+        big[1:, 1:n + 1] = S
+        return Stabilizer((np.asfortranarray(R), big[1:, 1:n + 1], ph))
     if fmt == "strings":
         return Stabilizer([P.to_label(n, g) for g in gens])
     raise ValueError(fmt)
@@ -212,7 +217,7 @@ def build_jobs(ctx, nmax=6, parts=("prep", "readout")):
                     gsets = all_generating_sets(n, key)[::7]          # every 7th of the 168 ordered bases
                 for gs in gsets:
                     for sv in sign_vectors(n):
-                        jobs.append((n, conn, with_signs(gs, sv), "matrix" if cnt % 3 else "strings", orb))
+                        jobs.append((n, conn, with_signs(gs, sv), ("strings", "matrix", "matrix-f")[cnt % 3], orb))
                         cnt += 1
             desc[f"{n}-{conn}"] = (f"all {len(groups)} groups x all {2 ** n} sign vectors x "
                                    f"{'all ordered generating sets' if n == 2 else ('3 generating sets' if q else '24 of 168 ordered generating sets')}: {cnt} cases")
@@ -225,7 +230,7 @@ def build_jobs(ctx, nmax=6, parts=("prep", "readout")):
                     rows = generator_changes(n, rows, rnd, 1)[0]
                 use = svs if not q else [rnd.choice(svs)]
                 for sv in use:
-                    jobs.append((n, conn, with_signs(rows, sv), "matrix", orb))
+                    jobs.append((n, conn, with_signs(rows, sv), ("matrix", "matrix-f")[cnt % 2], orb))
                     cnt += 1
             # all signs for one member of every class (quick tier too)
             if q:
@@ -253,7 +258,7 @@ def build_jobs(ctx, nmax=6, parts=("prep", "readout")):
                 for rows in variants:
                     svs = sign_vectors(n) if nsig == 2 ** n else [tuple(rnd.randrange(2) for _ in range(n)) for _ in range(nsig)]
                     for sv in svs:
-                        jobs.append((n, conn, with_signs(rows, sv), "matrix" if cnt % 4 else "strings", orb))
+                        jobs.append((n, conn, with_signs(rows, sv), ("strings", "matrix", "matrix-f", "matrix")[cnt % 4], orb))
                         cnt += 1
             desc[f"{n}-{conn}"] = f"every class ({len(reps)}) x {layers + (0 if q and n == 6 else 1)} members (seeded local Clifford layers, seeded generator changes) x {'all ' + str(nsig) if nsig == 2 ** n else str(nsig) + ' seeded'} sign vectors: {cnt} cases (BOUNDED in members/signs)"
     return [j + (parts,) for j in jobs], desc
